@@ -299,6 +299,9 @@ func RunDispatch(t *testing.T, sc *DScenario) (recs []interface{}, failure strin
 					ms = append(ms, m)
 				}
 				callErr = h.SendBatch(ms) != nil
+			case "stop": // the application closes the session (Logout; the session context is cancelled at the deadline, CloseTimeout = 0 here)
+				// while the handler and the connection stay up: what is sent through the session afterwards is judged like any send
+				callErr = s.Stop() != nil
 			case "send":
 				m := fixgen.NewMarketDataRequest().SetMDReqID("r")
 				if nrec%2 == 1 { // every other one is a message received elsewhere and passed on (populated by parsing, old number in its header)
